@@ -169,7 +169,7 @@ func (P *Program) genVCWith(key string, known map[string]Finding) (*gen, error) 
 		g = &gen{P: P, fn: fn, fs: fs, c: newSmtCtx(fs.Strings), key: key, name: shortKey(key),
 			oblNames: map[string]int{}, allVars: allVars, loopMods: loopMods, loopModsN: map[string]map[string]bool{},
 			deferIdx: map[*ssa.Defer]int{}, counters: map[string]int{}, used: map[string]bool{}, snapNames: map[string]bool{},
-			loopInfos: map[*ssa.Function]*loopInfo{}, localCell: map[string]string{}, fieldRefs: map[string]*fieldAccess{}, lockSiteOrd: map[interface{}]int{}, rangeIters: map[*ssa.Range]int{}, iterFacts: map[int][3]string{}}
+			loopInfos: map[*ssa.Function]*loopInfo{}, localCell: map[string]string{}, fieldRefs: map[string]*fieldAccess{}, lockSiteOrd: map[interface{}]int{}, iters: map[*ssa.Range]*iterInfo{}}
 		g.known = known
 		g.run()
 		stable := !g.newVars
